@@ -1,5 +1,5 @@
 # replay of a bounded stand-in violation (C13): re-run native/c13_tdm.py
 import sys
-print("calls ('space1', 'lock', 'unroll1'): a refused unroll1 changed the locked flag")
+print('single band N=2, 2 time bins, dagger=False: the register-shifting unrolled program and the hand-written fresh-mode loop leave the in-flight modes in different states (max mean diff 0.0147, cov diff 0.113)')
 print('REPLAY-VIOLATION')
 sys.exit(1)
